@@ -92,7 +92,7 @@ def fquery(ks, d, rel):
     return s
 def deep(d):
     """wrap a small document in many container levels: behaviour must not change with nesting depth"""
-    k = rnd.choice([5, 20, 50, 63, 64, 65, 70, 90, 100])
+    k = rnd.choice([5, 20, 50, 63, 64, 65, 70, 80])
     for i in range(k):
         d = [d] if rnd.random() < 0.7 else ({'a': d} if rnd.random() < 0.7 else [0, d])
     return d
